@@ -487,8 +487,12 @@ def contains(d, pred):
     """does any sub-descriptor satisfy pred?"""
     if not isinstance(d, tuple):
         return False
-    if pred(d):
-        return True
+    if d and isinstance(d[0], str):
+        try:
+            if pred(d):
+                return True
+        except IndexError:
+            pass
     for x in d:
         if isinstance(x, tuple) and contains(x, pred):
             return True
